@@ -94,6 +94,12 @@ type RunOpts struct {
 	// BeforeCleanup is called after the process has exited (or was given up on) and before
 	// whatever is left of its session is killed
 	BeforeCleanup func()
+	// Pty runs grog on a pseudo terminal (stdin/stdout/stderr = the slave side, controlling
+	// terminal of its own session): the interactive Bubble Tea UI path. Everything grog prints
+	// ends up in Result.Stdout. WithPty (optional) gets the master side once the process runs:
+	// writing "\x03" to it is what pressing Ctrl-C does.
+	Pty     bool
+	WithPty func(pid int, master *os.File)
 }
 
 func cpuOf(pid int) (int64, bool) {
@@ -158,24 +164,71 @@ func (m *Machine) Run(args []string, o RunOpts) *Result {
 		"NO_COLOR=1",
 		"GROG_DISABLE_TEA=true",
 	}
+	if o.Pty {
+		env = env[:len(env)-3]
+		env = append(env, "TERM=xterm-256color")
+	}
 	env = append(env, m.ExtraEnv...)
 	env = append(env, o.Env...)
 	cmd.Env = env
 	var so, se bytes.Buffer
-	cmd.Stdout = &so
-	cmd.Stderr = &se
-	if o.Stdin != "" {
-		cmd.Stdin = strings.NewReader(o.Stdin)
+	var master, slave *os.File
+	ptyDone := make(chan struct{})
+	if o.Pty {
+		var err error
+		master, slave, err = openPty()
+		if err != nil {
+			return &Result{Args: args, Exit: -1, Stderr: "pty: " + err.Error()}
+		}
+		cmd.Stdin, cmd.Stdout, cmd.Stderr = slave, slave, slave
+		cmd.SysProcAttr = &syscall.SysProcAttr{Setsid: true, Setctty: true, Ctty: 0}
+	} else {
+		close(ptyDone)
+		cmd.Stdout = &so
+		cmd.Stderr = &se
+		if o.Stdin != "" {
+			cmd.Stdin = strings.NewReader(o.Stdin)
+		}
+		cmd.SysProcAttr = &syscall.SysProcAttr{Setsid: true}
 	}
-	cmd.SysProcAttr = &syscall.SysProcAttr{Setsid: true}
 	res := &Result{Args: args}
 	start := time.Now()
 	if err := cmd.Start(); err != nil {
 		res.Exit = -1
 		res.Stderr = "start: " + err.Error()
+		if master != nil {
+			master.Close()
+			slave.Close()
+		}
 		return res
 	}
 	pid := cmd.Process.Pid
+	if o.Pty {
+		slave.Close()
+		go func() {
+			// drain the terminal until every slave descriptor is closed (read fails with EIO)
+			defer close(ptyDone)
+			buf := make([]byte, 8192)
+			for {
+				n, err := master.Read(buf)
+				so.Write(buf[:n])
+				// answer the queries a terminal emulator answers (termenv asks for the background
+				// colour and the cursor position before the UI starts and waits seconds otherwise)
+				if bytes.Contains(buf[:n], []byte("\x1b]11;?")) {
+					master.Write([]byte("\x1b]11;rgb:0000/0000/0000\x1b\\"))
+				}
+				if bytes.Contains(buf[:n], []byte("\x1b[6n")) {
+					master.Write([]byte("\x1b[1;1R"))
+				}
+				if err != nil {
+					return
+				}
+			}
+		}()
+		if o.WithPty != nil {
+			go o.WithPty(pid, master)
+		}
+	}
 	if o.AfterStart != nil {
 		go o.AfterStart(pid)
 	}
@@ -200,13 +253,26 @@ func (m *Machine) Run(args []string, o RunOpts) *Result {
 			_ = syscall.Kill(-pid, syscall.SIGKILL)
 			err = <-done
 		}
-		res.Dump = se.String()
+		if !o.Pty {
+			res.Dump = se.String()
+		}
 	}
 	if o.BeforeCleanup != nil {
 		o.BeforeCleanup()
 	}
 	// kill whatever is left in the session (orphaned sleeps of interrupted commands)
 	_ = syscall.Kill(-pid, syscall.SIGKILL)
+	if o.Pty {
+		select {
+		case <-ptyDone:
+		case <-time.After(2 * time.Second):
+		}
+		master.Close()
+		<-ptyDone
+		if res.TimedOut {
+			res.Dump = so.String()
+		}
+	}
 	res.Wall = time.Since(start)
 	res.Stdout = so.String()
 	res.Stderr = se.String()
